@@ -225,10 +225,22 @@ func (w *World) Do(st Step) string {
 		if w.hung {
 			return "hang" // a call that never returned holds its locks: everything after it is stuck as well
 		}
+		// does this handshake create an entry in background mode?  Then a forced background pass is started by a
+		// goroutine nothing waits for: the next step must not begin before that pass has fetched and finished
+		idsBefore, hitsBefore := -1, 0
+		if w.Cfg.FetchMode == "fetch_background" && w.V.V.VerifCRLChecker() != nil {
+			idsBefore = len(w.V.V.VerifCRLChecker().VerifRepository().VerifIdentifiers())
+			hitsBefore = w.Org.TotalHits()
+		}
 		done := make(chan string, 1)
 		go func() { done <- classify(w.V.Verify(w.chainFor(st.What)...)) }()
 		select {
 		case r := <-done:
+			if idsBefore >= 0 && len(w.V.V.VerifCRLChecker().VerifRepository().VerifIdentifiers()) > idsBefore {
+				for k := 0; k < 500 && w.Org.TotalHits() == hitsBefore; k++ { // the pass has reached the origin (up to 5 s)
+					time.Sleep(10 * time.Millisecond)
+				}
+			}
 			w.settle()
 			return r
 		case <-time.After(20 * time.Second):
